@@ -117,7 +117,9 @@ where
                                     println!("unexpected escape character");
                                 }
                             } else if char == "%" {
-                                // self.select_other_charset(yield_!(None));
+                                // The argument of "select other charset" is part of
+                                // the sequence (the byte decoder owns the mode switch).
+                                co.yield_(None);
                             } else if "()".contains(&char) {
                                 let _code = co.yield_(None);
                                 if parser_state_cloned.lock().unwrap().use_utf8 {
@@ -242,7 +244,9 @@ where
                                     println!("unexpected escape character");
                                 }
                             } else if char == "%" {
-                                // self.select_other_charset(yield_!(None));
+                                // The argument of "select other charset" is part of
+                                // the sequence (the byte decoder owns the mode switch).
+                                co.yield_(None);
                             } else if "()".contains(&char) {
                                 let _code = co.yield_(None);
                                 if parser_state_cloned.lock().unwrap().use_utf8 {
